@@ -161,16 +161,35 @@ class C18(PropCheck):
         for k, v in rcres["distribution"].items():
             if k.startswith("end:"):
                 dist["registry_" + k] = v
+        # the iterator's add / drop calls: forked histories on real instances, incl. dropping an instance one of whose
+        # signals was cleared behind its back (the ids it recorded are stale); every call returns, none hangs
+        from . import c14
+        eblocks = [["new only 10 12", "unregsig 10", "drop", "usable"], ["new raw 10 12", "unregsig 12", "dropinst", "drophandles", "usable"],
+                   ["new only 10", "hadd 12", "unregsig 12", "hadd 14", "drop", "usable"], ["new only 10 12", "add 9", "add 14", "drop", "usable"]]
+        ib, mb = c14.run_blocks(eblocks)
+        for b, i, m in zip(eblocks, ib, mb):
+            ends = [l for l in i if l.startswith("exit ")]
+            hung = any("hang" in l for l in ends) or any(l.startswith("exit killedBy") for l in ends)
+            if hung or len([l for l in i if not l.startswith("exit")]) < len(b):
+                failures.append({"kind": "violation", "key": "C18:entries:" + core.digest(b),
+                                 "what": "iterator history `%s`: a call did not return (`%s`)" % ("; ".join(b), (ends or ["?"])[-1]),
+                                 "payload": {"entries": True, "ops": b, "impl": i, "model": m}})
+        dist["iterator_add_drop_histories"] = len(eblocks)
         uniq = {}
         for f in failures:
             uniq.setdefault(f["key"], f)
-        return {"evaluations": len(results) + rcres["evaluations"], "distinct_nontrivial": nontrivial + rcres["distinct_nontrivial"],
+        return {"evaluations": len(results) + rcres["evaluations"] + len(eblocks), "distinct_nontrivial": nontrivial + rcres["distinct_nontrivial"],
                 "rule": "random scenarios with 2-5 threads, mostly writers (incl. no-store writes and stores whose old value's destructor panics under the writer mutex) plus readers (a fifth of the scenarios: one writer under a stream of overlapping long read sections), on the real HalfLock under the deterministic PRNG scheduler; compared step by step with the Lean model; monitors: runs to completion (no deadlock / livelock within the budget), quiescent completion bound (8 own steps), no further look at the slots once each was found empty (waits only for deliveries in flight at publication), poisoned mutex does not stop later writers; non-trivial = at least two write calls",
                 "samples": [{"scenario": results[0]["scenario"], "schedule": " ".join(results[0]["schedule"]), "trace": results[0]["impl"][:12]}] if results else [],
                 "traces_validated_against_impl": len(results), "steps_compared": steps, "distribution": dist,
                 "failures": list(uniq.values())}
 
     def replay(self, payload):
+        if payload.get("entries"):
+            from . import c14
+            ib, mb = c14.run_blocks([payload["ops"]])
+            ends = [l for l in ib[0] if l.startswith("exit ")]
+            return any("hang" in l or l.startswith("exit killedBy") for l in ends), "\n".join(ib[0])
         if any(l.startswith("setup") or " reg" in l or "deliver" in l for l in payload["scenario"]):
             from . import c02
             return c02.C18rc().replay(payload)
